@@ -643,6 +643,14 @@ def xfam(ctx):
     return M.finish(ctx, rule=ENG_RULE, evs=evs)
 
 
+@prop("XRUN")
+def xrun(ctx):
+    """development aid: XRUN_FAM=direct [VERIF_ONLY=substring] ./check XRUN   - one driver family, judged by EioMon"""
+    evs = eng_run(ctx, [], 20, 200, tuple(os.environ["XRUN_FAM"].split(",")))
+    ctx.assumptions = ENG_ASSUME
+    return M.finish(ctx, rule=ENG_RULE, evs=evs)
+
+
 # ----------------------------------------------------------------------- C05
 RT_ATTACH = '{"none","serveropts","path-slash","path-noslash","custom","notrailing"}'
 RT_SHAPES = '{"exact","noslash","sub","subslash","dot","enddot","dotdot","enddotdot","up","dbl","case","other","prefixonly"}'
